@@ -7,6 +7,7 @@ import (
 	"os"
 	"path/filepath"
 	"strings"
+	"sync"
 
 	"golang.org/x/tools/go/packages"
 	"golang.org/x/tools/go/ssa"
@@ -21,6 +22,49 @@ type Program struct {
 	Pkgs            map[string]*ssa.Package // by import path
 	errorStringType types.Type              // *errors.errorString
 	LoadSeconds     float64
+	initRefMu       sync.Mutex
+	initRefCache    map[*ssa.Package]map[*ssa.Global]bool
+}
+
+// initRefs returns the globals of p that p's initializer code refers to.
+func (P *Program) initRefs(p *ssa.Package) map[*ssa.Global]bool {
+	P.initRefMu.Lock()
+	defer P.initRefMu.Unlock()
+	if P.initRefCache == nil {
+		P.initRefCache = map[*ssa.Package]map[*ssa.Global]bool{}
+	}
+	if m, ok := P.initRefCache[p]; ok {
+		return m
+	}
+	m := map[*ssa.Global]bool{}
+	var scan func(f *ssa.Function)
+	seen := map[*ssa.Function]bool{}
+	scan = func(f *ssa.Function) {
+		if f == nil || seen[f] {
+			return
+		}
+		seen[f] = true
+		for _, b := range f.Blocks {
+			for _, ins := range b.Instrs {
+				for _, op := range ins.Operands(nil) {
+					if g, ok := (*op).(*ssa.Global); ok && g.Pkg == p {
+						m[g] = true
+					}
+				}
+			}
+		}
+		for _, af := range f.AnonFuncs {
+			scan(af)
+		}
+	}
+	scan(p.Func("init"))
+	for name, mem := range p.Members {
+		if f, ok := mem.(*ssa.Function); ok && strings.HasPrefix(name, "init#") {
+			scan(f)
+		}
+	}
+	P.initRefCache[p] = m
+	return m
 }
 
 // Load type-checks pkgPaths (patterns relative to dir) with the overlay files and builds SSA
